@@ -13,9 +13,15 @@ INIT = {"t": [1, 2, 3], "u": [1, 2, 3]}
 tier_reopen = False
 
 
-def wl(name, actors, passes=1):
-    return {"name": name, "setup": e4util.BASE_SETUP, "actors": [{"name": n, "stmts": s} for n, s in actors],
-            "passes": passes, "tables": ["t", "u"], "transparent": TRANSPARENT, "check_pins": True, "reopen": tier_reopen}
+def wl(name, actors, passes=1, dv=False):
+    """dv: both row-sets of t already have a delete vector when the actors start (the compaction that merges them also
+    retires the vectors, which a reader pinned earlier still has to resolve)"""
+    w = {"name": name, "setup": e4util.BASE_SETUP, "actors": [{"name": n, "stmts": s} for n, s in actors],
+         "passes": passes, "tables": ["t", "u"], "transparent": TRANSPARENT, "check_pins": True, "reopen": tier_reopen}
+    if dv:
+        w["setup"] = e4util.BASE_SETUP[:4] + ["insert into t values (4),(5)", "delete from t where a = 2 or a = 4"] + e4util.BASE_SETUP[4:]
+        w["init"] = {"t": [1, 3, 5], "u": [1, 2, 3]}
+    return w
 
 
 def workloads(tier):
@@ -30,6 +36,9 @@ def workloads(tier):
         wl("R+R", [("R", ["select * from t"]), ("R2", ["select * from t"])]),
         wl("R+ins-u", [("R", ["select * from t"]), ("W", ["insert into u values (7)"])]),
         wl("R;R+del", [("R", ["select * from u", "select * from t"]), ("W", ["delete from t where a = 2"])]),
+        wl("dv:R", [("R", ["select * from t"])], dv=True),
+        wl("dv:R+del", [("R", ["select * from t"]), ("W", ["delete from t where a = 1"])], dv=True),
+        wl("dv:R+drop", [("R", ["select * from t"]), ("W", ["drop table t"])], dv=True),
     ]
     if tier == "quick":
         ws = [w for w in ws if w["name"] != "R+ins-u"]       # the other-table writer is explored in the thorough tier only
@@ -68,8 +77,8 @@ def writer_effects(w, trace, stmts):
     return sorted(eff)
 
 
-def snapshot_at(eff, idx, table):
-    rows = list(INIT[table])
+def snapshot_at(eff, idx, table, init=INIT):
+    rows = list(init[table])
     dropped = False
     for i, t, e in eff:
         if i >= idx or t != table:
@@ -133,7 +142,7 @@ def run(tier, seed):
                     if k >= len(planned):
                         sig, detail = "reader-not-started", {"stmt": sql}
                         break
-                    want = snapshot_at(eff, planned[k], table)
+                    want = snapshot_at(eff, planned[k], table, w.get("init", INIT))
                     if got is None:
                         if has_drop and isinstance(r, dict) and "err" in r:
                             continue        # the table may legitimately be gone before the scan started
@@ -141,7 +150,7 @@ def run(tier, seed):
                         break
                     if want is None:
                         # pinned after the drop became visible, yet rows returned: acceptable only if it is the pre-drop content
-                        want = snapshot_at([e for e in eff if e[2] != "drop"], planned[k], table)
+                        want = snapshot_at([e for e in eff if e[2] != "drop"], planned[k], table, w.get("init", INIT))
                     if got != want:
                         sig, detail = "reader-rows-differ", {"stmt": sql, "got": got, "want_at_pin": want, "effects": [str(e) for e in eff], "pin_step": planned[k]}
                         break
